@@ -3,6 +3,9 @@ import Proofs.TrimLemmas
 import Proofs.StrReplSplit
 import Proofs.StrEscUrl
 import Proofs.StrWords
+import Proofs.StrValid
+import Proofs.StrValidBasic
+import Proofs.StrAscii
 /-!
 # C16 — string filters implement their documented functions on every string
 
@@ -73,6 +76,14 @@ theorem capitalize_spec_partial (s t : Bytes) (hs : s ≠ []) (h : StrF.capitali
   · rw [ht, decodeRunes_encodeRune_append u (upperRune_scalar hu)]
 
 theorem capitalize_nil : StrF.capitalize [] = some [] := rfl
+
+/-- on ASCII strings the case filters are total and act byte by byte (full strength) -/
+theorem upcase_ascii (s : Bytes) (h : ∀ b ∈ s, b < 0x80) : StrF.upcase s = some (s.map asciiUpper) :=
+  upcase_ascii_eq s h
+theorem downcase_ascii (s : Bytes) (h : ∀ b ∈ s, b < 0x80) : StrF.downcase s = some (s.map asciiLower) :=
+  downcase_ascii_eq s h
+theorem capitalize_ascii (b : UInt8) (t : Bytes) (hb : b < 0x80) :
+    StrF.capitalize (b :: t) = some (asciiUpper b :: t) := capitalize_ascii_eq b t hb
 
 example : StrF.upcase [97, 195, 169, 240, 159, 152, 128] = some [65, 195, 137, 240, 159, 152, 128] := by decide
 example : StrF.capitalize [195, 169, 108] = some [195, 137, 108] := by decide   -- "él" ⇒ "Él"
@@ -321,3 +332,70 @@ theorem newline_to_br_spec (s : Bytes) :
     10 ∉ StrF.newlineToBr s := ⟨newlineToBr_eq_flatMap s, newlineToBr_no_nl s⟩
 
 example : StrF.stripHtml [97, 60, 98, 62, 99, 60, 10, 62] = [97, 99, 60, 10, 62] := by decide
+
+/-! ## receivers that are not strings are first converted to the text they print as -/
+
+/-- nil ⇒ `""`, booleans ⇒ `true` / `false`, integers of every width ⇒ their decimal digits (the
+    conversion the `strfv` driver op applies before the filter; floats are outside the model) -/
+theorem recv_to_string :
+    StrF.recvToString .nil = some [] ∧
+    StrF.recvToString (.bool true) = some [116, 114, 117, 101] ∧
+    StrF.recvToString (.bool false) = some [102, 97, 108, 115, 101] ∧
+    (∀ k n, StrF.recvToString (.int k n) = some (StrF.intToBytes n)) ∧
+    (∀ s, StrF.recvToString (.str s) = some s) := ⟨rfl, rfl, rfl, fun _ _ => rfl, fun _ => rfl⟩
+
+example : StrF.intToBytes (-120) = [45, 49, 50, 48] := by decide
+
+/-! ## valid UTF-8 in ⇒ valid UTF-8 out (every string filter except `url_decode`) -/
+
+theorem utf8_preserved_append (s x : Bytes) (hs : ValidUtf8 s) (hx : ValidUtf8 x) :
+    ValidUtf8 (StrF.append s x) ∧ ValidUtf8 (StrF.prepend s x) :=
+  ⟨validUtf8_append hs hx, validUtf8_append hx hs⟩
+
+/-- the case filters even repair invalid input (every invalid byte becomes U+FFFD) -/
+theorem utf8_preserved_case (s t : Bytes) (h : StrF.upcase s = some t ∨ StrF.downcase s = some t) : ValidUtf8 t := by
+  rcases h with h | h <;> exact mapFilter_valid s t h
+
+theorem utf8_preserved_capitalize (s t : Bytes) (hs : ValidUtf8 s) (h : StrF.capitalize s = some t) : ValidUtf8 t :=
+  capitalize_valid s t hs h
+
+theorem utf8_preserved_strip (s : Bytes) (hs : ValidUtf8 s) :
+    ValidUtf8 (StrF.strip s) ∧ ValidUtf8 (StrF.lstrip s) ∧ ValidUtf8 (StrF.rstrip s) :=
+  ⟨strip_valid s hs, trimLeftSpace_valid s hs, trimRightSpace_valid s hs⟩
+
+theorem utf8_preserved_replace (s old new : Bytes) (hs : ValidUtf8 s) (ho : ValidUtf8 old) (hn : ValidUtf8 new) :
+    ValidUtf8 (StrF.replace s old new) ∧ ValidUtf8 (StrF.replaceFirst s old new) ∧
+    ValidUtf8 (StrF.remove s old) ∧ ValidUtf8 (StrF.removeFirst s old) :=
+  ⟨replace_valid s old new hs ho hn, replaceFirst_valid s old new hs ho hn, remove_valid s old hs ho,
+    removeFirst_valid s old hs ho⟩
+
+theorem utf8_preserved_split (s sep : Bytes) (hs : ValidUtf8 s) (hsep : ValidUtf8 sep) :
+    (∀ p ∈ StrF.split s sep, ValidUtf8 p) ∧ ValidUtf8 (StrF.join sep (StrF.split s sep)) :=
+  ⟨split_valid s sep hs hsep, join_valid sep _ hsep (split_valid s sep hs hsep)⟩
+
+/-- `slice` output is valid for every input, valid or not -/
+theorem utf8_preserved_slice (s : Bytes) (start n : Int) : ValidUtf8 (StrF.slice s start n) :=
+  slice_valid s start n
+
+theorem utf8_preserved_truncate (s : Bytes) (n : Int) (el : Bytes) (hs : ValidUtf8 s) (he : ValidUtf8 el) :
+    ValidUtf8 (StrF.truncate s n el) ∧ ValidUtf8 (StrF.truncatewords s n el) :=
+  ⟨truncate_valid s n el hs he, truncatewords_valid s n el hs he⟩
+
+theorem utf8_preserved_escape (s : Bytes) (hs : ValidUtf8 s) :
+    ValidUtf8 (StrF.escape s) ∧ (∀ t, StrF.escapeOnce s = some t → ValidUtf8 t) :=
+  ⟨escape_valid s hs, fun t h => escapeOnce_valid s t hs h⟩
+
+theorem utf8_preserved_html (s : Bytes) (hs : ValidUtf8 s) :
+    ValidUtf8 (StrF.stripHtml s) ∧ ValidUtf8 (StrF.stripNewlines s) ∧ ValidUtf8 (StrF.newlineToBr s) :=
+  ⟨stripHtml_valid s hs, stripNewlines_valid s hs, newlineToBr_valid s hs⟩
+
+/-- `url_encode` output is ASCII for every input -/
+theorem utf8_preserved_url_encode (s : Bytes) : ValidUtf8 (StrF.urlEncode s) := urlEncode_valid s
+
+/-- the exception: `url_decode` can produce invalid UTF-8 from valid (ASCII) input -/
+theorem url_decode_not_preserving :
+    ValidUtf8 [37, 70, 70] ∧ StrF.urlDecode [37, 70, 70] = some [255] ∧ ¬ ValidUtf8 [255] := by
+  refine ⟨by decide, by decide, by decide⟩
+
+example : ValidUtf8 [195, 169, 32, 240, 159, 152, 128] := by decide
+example : ¬ ValidUtf8 [195] := by decide
